@@ -90,6 +90,10 @@ def check_reports(run, cnt, fi=False):
         common.bump(cnt, "report_evals")
         if n not in POS.columns or not close(POS[n].reindex(V.index).fillna(0.0), exp, atol=1e-9):
             return ("c18_positions", {"ticker": n, "holders": len(lst)})
+    to_always = t.turnover       # a report must be computable for any finished run, also one without securities
+    hh_always = t.herfindahl_index
+    if len(to_always) != len(V) or len(hh_always) != len(V):
+        return ("c18_turnover", {"what": "length", "turnover": len(to_always), "hhi": len(hh_always), "dates": len(V)})
     if len(secs):
         hh = t.herfindahl_index
         common.bump(cnt, "report_evals")
